@@ -43,24 +43,24 @@ STRESS_SCENARIOS = {
     # every scenario is attached to every property one of its oracles can decide (tags in harness/src/bin/stress.rs)
     "C01": (["late", "blocking", "cancel", "backlog", "refs", "selfchain"], 0, ["late", "blocking", "cancel", "backlog", "refs", "selfchain", "hammer", "mix"], 60),
     "C02": (["blocking", "cancel", "backlog"], 0, ["blocking", "cancel", "backlog", "hammer", "mix"], 60),
-    "C03": (["askjoin", "hammer", "idlewin", "blocking", "cancel", "backlog", "replyclose", "mix", "afterend"], 6, ["askjoin", "hammer", "idlewin", "blocking", "cancel", "backlog", "replyclose", "mix", "afterend"], 180),
+    "C03": (["askjoin", "hammer", "idlewin", "blocking", "cancel", "backlog", "replyclose", "mix", "afterend", "queuedask"], 6, ["askjoin", "hammer", "idlewin", "blocking", "cancel", "backlog", "replyclose", "mix", "afterend", "queuedask"], 180),
     "C04": (["backlog", "refs", "hookpanic", "idlewin"], 0, ["backlog", "refs", "hookpanic", "hammer", "mix", "idlewin"], 60),
     "C05": (["cancel", "backlog", "idlewin", "refs"], 0, ["cancel", "backlog", "idlewin", "refs", "hammer", "mix"], 60),
-    "C06": (["refs"], 0, ["refs", "hammer", "mix"], 60),
+    "C06": (["refs", "queuedask"], 0, ["refs", "hammer", "mix", "queuedask"], 60),
     "C07": (["refs", "cancel", "backlog", "blocking", "selfchain"], 0, ["refs", "cancel", "backlog", "blocking", "selfchain", "hammer", "mix"], 60),
     "C08": (["idlewin", "backlog", "cancel"], 0, ["idlewin", "backlog", "cancel"], 0),
     "C09": (["blocking", "cancel", "backlog"], 0, ["blocking", "cancel", "backlog"], 0),
     "C10": (["late", "blocking", "lazyfut"], 0, ["late", "blocking", "lazyfut"], 0),
-    "C11": (["ids", "refs", "selfchain", "afterend"], 0, ["ids", "refs", "selfchain", "afterend"], 0),
-    "C12": (["ids", "hookpanic"], 0, ["ids", "hookpanic"], 0),
+    "C11": (["ids", "refs", "selfchain", "afterend", "queuedask"], 0, ["ids", "refs", "selfchain", "afterend", "queuedask"], 0),
+    "C12": (["ids", "hookpanic", "askjoin"], 0, ["ids", "hookpanic", "askjoin"], 0),
     "C13": (["blocking", "replyclose", "mix"], 4, ["blocking", "replyclose", "mix"], 60),
-    "C16": (["lazyfut", "blocking", "erasedblk", "refs"], 0, ["lazyfut", "blocking", "erasedblk", "refs"], 0),
+    "C16": (["lazyfut", "blocking", "erasedblk", "refs", "hookpanic"], 0, ["lazyfut", "blocking", "erasedblk", "refs", "hookpanic"], 0),
     "C17": (["blocking", "late", "erasedblk"], 0, ["blocking", "late", "erasedblk", "hammer"], 60),
     "C19": (["blocking", "askjoin"], 0, ["blocking", "askjoin"], 0),
 }
 
 
-STRESS_FEAT = {"C17": ["blocking"]}
+STRESS_FEAT = {"C17": ["blocking"], "C14": ["cyclerace"]}
 
 
 def stress(prop, tier, seed, ctx):
@@ -68,8 +68,10 @@ def stress(prop, tier, seed, ctx):
     q, qs, t, ts = STRESS_SCENARIOS.get(prop, ([], 0, [], 0))
     scen, secs = (t, ts) if tier == "thorough" else (q, qs)
     res = {"evidence": {}, "violations": [], "broken": []}
-    if not scen:
+    if not scen and prop not in STRESS_FEAT:
         return res
+    if not scen:
+        scen = ["cyclerace"]   # a no-op on the default build; keeps the report shape uniform
     ctx["build_harness"]([])
     rep = os.path.join(ctx["BUILD"], f"stress_{prop}.json")
     rc, out, err = ctx["sh"]([os.path.join(ctx["HARNESS"], "target", "release", "stress"), "--scenario", ",".join(scen),
